@@ -138,7 +138,8 @@ static long waitfail_extras(int tier)
   return tier ? 0 : (long) ((ntriples[0] + 7) / 8) * 2 * NCB;
 }
 
-static long stop_n(int tier) { return stop_n_mode(0, tier) + waitfail_extras(tier); }
+#define NPREFAIL07 (NCB * 3)
+static long stop_n(int tier) { return stop_n_mode(0, tier) + waitfail_extras(tier) + NPREFAIL07; }
 
 static void decode(int m, int tier, long cfg, struct cfg *c)
 {
@@ -165,7 +166,7 @@ struct slot { int act; int64_t tmo; /* effective */ int raw; };
 
 static int64_t abs_deadline(void)
 {
-  return C.deadline ? start_time + C.deadline : -1;
+  return C.deadline > 0 ? start_time + C.deadline : -1; /* 0 and REPROC_INFINITE (-1) both mean: none */
 }
 
 /* slots actually in force (all-noop replaced), with start times tau[k] assuming the child is never seen exited */
@@ -382,7 +383,7 @@ static void evaluate(int kind, int r, const char *where)
 static int free_run_comparable(void)
 {
   if (C.faults || C.prefail || C.is == IS_WAITFAIL) return 0;
-  if (C.is != IS_RUNNING) return !(C.deadline && !C.expired && C.cb == CB_EXITS); /* the free run waits for the child's own exit: the deadline passes */
+  if (C.is != IS_RUNNING) return !(C.deadline > 0 && !C.expired && C.cb == CB_EXITS); /* the free run waits for the child's own exit: the deadline passes */
   struct slot s[3];
   int64_t tau[4];
   int m = plan(s, tau);
@@ -420,7 +421,7 @@ static void run_cfg(const char *prop_unused)
   (void) prop_unused;
   memset(&vk_cfg, 0, sizeof vk_cfg);
   vk_cfg.sched_on = 1;
-  vk_cfg.sched_bound = hx_tier || !C.deadline ? 2 : 1; /* quick: two scheduling deviations without a deadline, one with */
+  vk_cfg.sched_bound = hx_tier || C.deadline <= 0 ? 2 : 1; /* quick: two scheduling deviations without a deadline, one with */
   vk_cfg.vlimit = 24;
   vk_cfg.hello_lite = 1;
   vk_autonomous_gap_ms = 600; /* 20 nominal ms at the free runs' time scale: later than the 5 + 3 x 2 ms the finite waits can add up to */
@@ -531,6 +532,20 @@ static void run_cfg(const char *prop_unused)
 static void c07_run(int tier, long cfg)
 {
   long nmain = stop_n_mode(0, tier);
+  if (cfg >= nmain + waitfail_extras(tier)) {
+    /* a handle whose first start (with a deadline) failed and whose second start has none: stop sequences that look at the deadline */
+    long v = cfg - nmain - waitfail_extras(tier);
+    memset(&C, 0, sizeof C);
+    C.prefail = 1;
+    C.cb = (int) (v % NCB);
+    v /= NCB;
+    static const int pol[3][6] = { { A_NOOP, A_NOOP, A_NOOP, 0, 0, 0 }, { A_WAIT, A_KILL, A_NOOP, -2, -1, 0 }, { A_WAIT, A_TERM, A_KILL, -2, 2, -1 } };
+    for (int i = 0; i < 3; i++) { C.a[i] = pol[v % 3][i]; C.t[i] = pol[v % 3][3 + i]; }
+    C.via = VIA_STOP;
+    C.is = IS_RUNNING;
+    run_cfg("C07");
+    return;
+  }
   if (cfg >= nmain) {
     long e = cfg - nmain, tr = (e / (2 * NCB)) * 8, v = e % (2 * NCB);
     memset(&C, 0, sizeof C);
@@ -550,12 +565,27 @@ static void c07_run(int tier, long cfg)
 /* C15 adds the non-running handle states */
 enum { D_NULL, D_NEVER_STARTED, D_FAILED_START, D_INVALID_OPTIONS, ND };
 #define NPREFAIL (NCB * 3 * 2)
-static long c15_n(int tier) { return stop_n_mode(1, tier) + ND + NPREFAIL; }
+#define NINFDL (NCB * 2 * 2) /* the deadline option given as REPROC_INFINITE, the library's own word for "none" */
+static long c15_n(int tier) { return stop_n_mode(1, tier) + ND + NPREFAIL + NINFDL; }
 static void c15_run(int tier, long cfg)
 {
   long n = stop_n_mode(1, tier);
   if (cfg < n) {
     decode(1, tier, cfg, &C); /* the destroy half of the space; the stop half belongs to C07 */
+    run_cfg("C15");
+    return;
+  }
+  if (cfg >= n + ND + NPREFAIL) {
+    long v = cfg - n - ND - NPREFAIL;
+    memset(&C, 0, sizeof C);
+    C.deadline = REPROC_INFINITE;
+    C.cb = (int) (v % NCB);
+    v /= NCB;
+    static const int pol2[2][6] = { { A_NOOP, A_NOOP, A_NOOP, 0, 0, 0 }, { A_WAIT, A_KILL, A_NOOP, -2, -1, 0 } };
+    for (int i = 0; i < 3; i++) { C.a[i] = pol2[v % 2][i]; C.t[i] = pol2[v % 2][3 + i]; }
+    v /= 2;
+    C.via = v ? VIA_DESTROY : VIA_STOP;
+    C.is = IS_RUNNING;
     run_cfg("C15");
     return;
   }
